@@ -44,6 +44,10 @@ pub struct Lifetime {
     /// trampolines lived in)
     #[serde(default)]
     pub pre: Vec<String>,
+    /// the k-th mprotect/VirtualProtect made while the injector goes away is refused once (only
+    /// for lifetimes that end by a plain drop; the scenario ends with this lifetime)
+    #[serde(default)]
+    pub exit_mprotect_fail: Option<u64>,
 }
 
 #[derive(Serialize, Deserialize, Clone, Debug, PartialEq)]
@@ -629,7 +633,7 @@ pub fn generate(profile: &str, variant: &str, seed: u64, index: u64) -> SimScena
                 classes.push(format!("kind-{kind}"));
                 ops.push(Install { target: rng.below(l.targets.len() as u64) as usize, kind: kind.into(), fake, value: rng.chance(1, 2) });
             }
-            lifetimes.push(Lifetime { ops, exit_panic: rng.chance(1, 6), pre: Vec::new() });
+            lifetimes.push(Lifetime { ops, exit_panic: rng.chance(1, 6), pre: Vec::new(), exit_mprotect_fail: None });
             classes.extend(l.classes.iter().cloned());
             return finish(profile, variant, seed, index, ps, pol, l, lifetimes, classes);
         }
@@ -681,7 +685,7 @@ pub fn generate(profile: &str, variant: &str, seed: u64, index: u64) -> SimScena
                         classes.push("env-occupy-freed".into());
                     }
                 }
-                lifetimes.push(Lifetime { ops, exit_panic, pre });
+                lifetimes.push(Lifetime { ops, exit_panic, pre, exit_mprotect_fail: None });
             }
             classes.extend(l.classes.iter().cloned());
             return finish(profile, variant, seed, index, ps, pol, l, lifetimes, classes);
@@ -725,7 +729,7 @@ pub fn generate(profile: &str, variant: &str, seed: u64, index: u64) -> SimScena
                 let fake2 = if arch == Arch::Arm { gen_fake32(&mut rng, &mut classes) } else { gen_fake64(&mut rng, None, &mut classes) };
                 ops.push(Install { target: 0, kind: "raw".into(), fake: fake2, value: false });
             }
-            lifetimes.push(Lifetime { ops, exit_panic: false, pre: Vec::new() });
+            lifetimes.push(Lifetime { ops, exit_panic: false, pre: Vec::new(), exit_mprotect_fail: None });
             classes.extend(l.classes.drain(..));
             return finish(profile, variant, seed, index, ps, pol, l, lifetimes, classes);
         }
@@ -766,7 +770,7 @@ pub fn generate(profile: &str, variant: &str, seed: u64, index: u64) -> SimScena
                 ops.push(Install { target: 0, kind: kind.into(), fake: fake.max(1), value: i % 32 == 15 });
             }
             classes.push(format!("mode{mode}-pos{pos}"));
-            lifetimes.push(Lifetime { ops, exit_panic: false, pre: Vec::new() });
+            lifetimes.push(Lifetime { ops, exit_panic: false, pre: Vec::new(), exit_mprotect_fail: None });
             classes.extend(l.classes.iter().cloned());
             return finish(profile, variant, seed, index, ps, pol, l, lifetimes, classes);
         }
@@ -789,7 +793,7 @@ pub fn generate(profile: &str, variant: &str, seed: u64, index: u64) -> SimScena
                     _ => "entry-t32-halfword".into(),
                 });
             }
-            lifetimes.push(Lifetime { ops, exit_panic: rng.chance(1, 8), pre: Vec::new() });
+            lifetimes.push(Lifetime { ops, exit_panic: rng.chance(1, 8), pre: Vec::new(), exit_mprotect_fail: None });
             classes.extend(l.classes.iter().cloned());
             return finish(profile, variant, seed, index, ps, pol, l, lifetimes, classes);
         }
@@ -811,6 +815,22 @@ fn finish(
 ) -> SimScenario {
     classes.sort();
     classes.dedup();
+    let mut lifetimes = lifetimes;
+    // a tenth of the scenarios end with a restoration during which one protection change is refused
+    if let Some(last) = lifetimes.last_mut() {
+        let pick = seed.wrapping_mul(0x9E37_79B9_7F4A_7C15).wrapping_add(index.wrapping_mul(0xD1B5_4A32_D192_ED03)) >> 33;
+        // (only where no function is faked twice in that lifetime: with a function faked several
+        // times the unchanged tree drops the remaining guards in forward order after the refused
+        // one and leaves the entry pointing at a freed trampoline -- observed, and outside what
+        // any listed property quantifies over, so not judged)
+        let mut seen = std::collections::BTreeSet::new();
+        let once = last.ops.iter().all(|o| seen.insert(o.target));
+        if once && !last.exit_panic && !last.ops.is_empty() && pick % 10 == 0 && matches!(profile, "C01" | "C02" | "C03" | "C12" | "C17" | "C11") {
+            last.exit_mprotect_fail = Some((pick / 10) % 3);
+            classes.push("exit-mprotect-refused".into());
+            classes.sort();
+        }
+    }
     SimScenario {
         engine: "S".into(),
         profile: profile.into(),
